@@ -7,7 +7,8 @@
 (*  metric  : Hermiticity defect and smallest eigenvalue of bond_metric (units of 1e-12 of its norm) against TolMetric                         *)
 (*  cover   : sites an environment object really depends on (found by perturbing one PEPS tensor at a time) against the regions of EnvCover /  *)
 (*            the messages of BpCover after k recorded sweeps                                                                                 *)
-EXTENDS TracePeps, PepsMeasure, BpCover
+(*  ctmu    : whether measure_1site / measure_nn after EnvCTM.update_(moves) from reset_('eye') return the exact value, against CtmMoves      *)
+EXTENDS TracePeps, PepsMeasure, BpCover, CtmMoves
 VARIABLE fn
 Site(p) == <<p[1], p[2]>>
 SiteSet(q) == {Site(q[i]) : i \in 1..Len(q)}
@@ -20,12 +21,18 @@ CoverExpected(e) ==
                                EE == {{Site(e.E[i][1]), Site(e.E[i][2])} : i \in 1..Len(e.E)}
                                sq == [i \in 1..Len(e.seq) |-> <<Site(e.seq[i][1]), Site(e.seq[i][2])>>] IN
                            Support(Sweeps(dd, EE, BpEye(dd), sq, e.k)[Site(e.site)][e.dn])
+(* ctmu: is a value measured after update_(moves) from reset_('eye') the exact one?  exact iff the formula counts every site once in the coverage after these moves *)
+CtmuExpected(e) == LET dd == Site(e.dims)  cv == AfterMoves(dd, e.moves)  s0 == Site(e.site) IN
+    CASE e.kind = "1site" -> Once(dd, M1(dd, cv, s0))
+      [] e.kind = "nnh" -> Once(dd, MnnH(dd, cv, s0, Sh(s0, "r")))
+      [] e.kind = "nnv" -> Once(dd, MnnV(dd, cv, s0, Sh(s0, "b")))
 OkE(e) == CASE e.op = "measure" -> LET F == fn[e.src] IN e.den = Norm2F(F) /\ ObsOk(e, OpExp(OpOf(e), F, e.gr))
             [] e.op = "evolve" -> e.integral /\ Vec(e.ent) = ApplyOp(OpOf(e), reg[e.src], e.gr) /\ e.terr <= TolTrunc /\ e.nonherm <= TolMetric /\ e.mineig >= -TolMetric
             [] e.op = "metric" -> e.nonherm <= TolMetric /\ e.mineig >= -TolMetric
             [] e.op = "cover" -> SiteSet(e.deps) = CoverExpected(e)
             [] e.op = "bmkeys" -> {<<e.keys[i][1], e.keys[i][2]>> : i \in 1..Len(e.keys)} = BmKeys(Site(e.dims), e.setup)
             [] e.op = "ctmk" -> e.k >= CtmNeeded(Site(e.dims))
+            [] e.op = "ctmu" -> e.exact = CtmuExpected(e)
             [] OTHER -> Ok(e)
 WhyE(e) == CASE e.op = "measure" -> <<e.op, e.what, "observed", e.obs, e.den, "expected", OpExp(OpOf(e), fn[e.src], e.gr), Norm2F(fn[e.src])>>
              [] e.op = "evolve" -> <<e.op, e.what, "integral", e.integral, "terr", e.terr, "nonherm", e.nonherm, "mineig", e.mineig,
@@ -34,6 +41,7 @@ WhyE(e) == CASE e.op = "measure" -> <<e.op, e.what, "observed", e.obs, e.den, "e
              [] e.op = "cover" -> <<e.op, e.what, "only observed", SiteSet(e.deps) \ CoverExpected(e), "only expected", CoverExpected(e) \ SiteSet(e.deps)>>
              [] e.op = "bmkeys" -> <<e.op, e.what, "expected", BmKeys(Site(e.dims), e.setup)>>
              [] e.op = "ctmk" -> <<e.op, e.what, "needed", CtmNeeded(Site(e.dims))>>
+             [] e.op = "ctmu" -> <<e.op, e.what, "measured value exact", e.exact, "model", CtmuExpected(e)>>
              [] OTHER -> Why(e)
 Registers(e) == e.op \in {"init", "apply", "sum", "evolve"}
 NextRegE(e) == IF Registers(e) THEN [k \in DOMAIN reg \cup {e.dst} |-> IF k = e.dst THEN Vec(e.ent) ELSE reg[k]] ELSE reg
